@@ -15,6 +15,8 @@ RULE = ("random circuits on 2-4 qubits mixing standard gates, payload-carrying U
         "between arguments and results (references kept alive), the same object returned twice, objects shared between the results of two calls, "
         "destructive edits through the result; sampler results of both interfaces incl. SamplerV1 quasi-distributions that do not sum to one "
         "(truncated, mitigated with negative entries, rescaled, raw counts); compared with the model's prediction (framed; sharing classes as a function of the input's features); "
+        "direct calls of separate_circuit on circuits with barriers across / inside partitions (oracle only); the two sides of a returned basis for every decomposition family "
+        "through from_instruction / cut_gates / partition_problem: editing every qubit-s list leaves the qubit-(1-s) lists, the other subcircuit's decompositions and later bases as they were (oracle only); "
         "histories (oracle only): chains cut_gates / cut_wires / partition_circuit_qubits over circuits with pre-placed placeholders, wire-cut markers and "
         "symbolic standard / composite / evolution gates, the last result edited through decompose_qpd_instructions(inplace=True) or "
         "assign_parameters(inplace=True): every earlier circuit unchanged, later calls as on freshly built twins")
@@ -126,8 +128,44 @@ _HIST = [
                 {"name": "symblk", "form": "gate", "par": "ph", "qubits": [1, 0]}]},
 ]
 
+# separate_circuit (utils.transforms; the public partitioning step underneath partition_problem), called DIRECTLY on circuits with barriers:
+# across all qubits (= across the partitions), inside one partition, labelled, repeated, on one qubit only; labels given or derived from the
+# connectivity (None).  Oracle only (the ownership model has no skeleton for it): the argument circuit must read exactly as before
+# (number of instructions, barrier widths and labels), the same circuit must not be returned twice, two calls must give equal, unshared results.
+_SEPARATE = [
+    {"nq": 4, "labels": ["A", "A", "B", "B"],
+     "instrs": [{"name": "h", "qubits": [0]}, {"name": "cx", "qubits": [0, 1]}, {"name": "cx", "qubits": [2, 3]}, {"name": "barrier", "qubits": [0, 1, 2, 3]},
+                {"name": "rx", "qubits": [2], "params": [0.3]}, {"name": "barrier", "qubits": [2, 3]}, {"name": "cx", "qubits": [1, 0]}]},
+    {"nq": 3, "labels": None,
+     "instrs": [{"name": "cx", "qubits": [0, 1]}, {"name": "barrier", "qubits": [0, 1, 2]}, {"name": "h", "qubits": [2]}, {"name": "ry", "qubits": [1], "params": [0.3]}]},
+    {"nq": 4, "labels": ["A", "B", "A", "B"],
+     "instrs": [{"name": "cx", "qubits": [0, 2]}, {"name": "barrier", "qubits": [0, 1, 2, 3], "label": "sync"}, {"name": "cx", "qubits": [1, 3]},
+                {"name": "barrier", "qubits": [3, 1]}, {"name": "sx", "qubits": [3]}]},
+    {"nq": 2, "labels": ["A", "B"],
+     "instrs": [{"name": "h", "qubits": [0]}, {"name": "barrier", "qubits": [0, 1]}, {"name": "barrier", "qubits": [1, 0], "label": "again"}, {"name": "sx", "qubits": [1]}]},
+    {"nq": 3, "labels": ["A", "B", "C"],
+     "instrs": [{"name": "barrier", "qubits": [1]}, {"name": "rz", "qubits": [0], "params": [0.3]}, {"name": "barrier", "qubits": [0, 2]}, {"name": "h", "qubits": [1]},
+                {"name": "barrier", "qubits": [2]}]},
+    {"nq": 3, "labels": ["A", "A", "B"],
+     "instrs": [{"name": "h", "qubits": [0]}, {"name": "cx", "qubits": [0, 1]}, {"name": "barrier", "qubits": [1], "label": "one"}, {"name": "sx", "qubits": [2]}]},
+]
+
+# THE TWO SIDES OF A RETURNED BASIS (oracle only): the decomposition of every supported gate family (two-qubit rotations, controlled
+# rotations, Clifford and controlled-phase gates, the KAK route, the wire-cut Move), obtained through QPDBasis.from_instruction, through
+# cut_gates and through partition_problem.  A gate is prepended to every distinct qubit-s operation list of basis.maps (the way the package
+# itself adds pre-rotations); the qubit-(1-s) lists must read as before, the OTHER subcircuit of partition_problem must decompose as before
+# for every map, and a basis obtained afterwards must be what it was the first time.
+_SIDES = [("rxx", [-1.1]), ("ryy", [2.3]), ("rzz", [0.7]), ("crx", [0.4]), ("cry", [0.4]), ("crz", [0.4]), ("cx", []), ("cz", []), ("cy", []), ("ch", []),
+          ("cs", []), ("csdg", []), ("csx", []), ("cp", [0.6]), ("ecr", []), ("swap", []), ("iswap", []), ("dcx", []), ("rzx", [0.5]),
+          ("unitary", [7, 2]), ("move", [])]
+
 
 def cases(rng, tier):
+    for k, spec in enumerate(_SEPARATE):
+        yield ("separate", {"fn": "separate_circuit", "nq": spec["nq"], "instrs": spec["instrs"], "labels": spec["labels"], "obs": ["ZXIY"[: spec["nq"]]], "marker": False,
+                            "meta": k % 2 == 0, "seed": 61 + k, "oracle_only": True, "always_oracle": True})
+    for g, ps in _SIDES:
+        yield ("sides", {"fn": "qpd_basis", "gate": g, "params": ps, "oracle_only": True, "always_oracle": True})
     for k, spec in enumerate(_HIST):
         yield ("history", {"fn": "history", "nq": spec["nq"], "instrs": spec["instrs"], "labels": spec.get("labels"), "chain": spec["chain"], "edit": spec["edit"],
                            "marker": False, "meta": k % 2 == 1, "oracle_only": True, "always_oracle": True})
@@ -202,6 +240,8 @@ def _op(ins, pars=None):
     if nm == "cut_wire":
         from qiskit_addon_cutting.instructions import CutWire
         return CutWire()
+    if nm == "barrier":
+        return canon.mk_op("barrier", [len(ins["qubits"])], ins.get("label"))
     if nm == "qpd":
         g = ins["gate"]
         return TwoQubitQPDGate.from_instruction(canon.mk_op(g, [0.3] if g in ("rzz", "crx") else []))
@@ -326,6 +366,9 @@ def _setup(payload):
         return (lambda c, l: P.partition_circuit_qubits(c, l)), [qc, labs], feats([qc])
     if fn == "partition_problem":
         return (lambda c, l, o: P.partition_problem(c, l, o)), [qc, labs, obs], feats([qc])
+    if fn == "separate_circuit":
+        from qiskit_addon_cutting.utils.transforms import separate_circuit
+        return (lambda c, l: separate_circuit(c, l)), [qc, labs], feats([qc])
     plain = _circuit(payload, drop_qpd=True, marker=True)
     if fn == "cut_wires":
         return (lambda c: P.cut_wires(c)), [plain], feats([plain])
@@ -535,8 +578,78 @@ def _rechain(payload, c):
     return c
 
 
+# ---------------------------------------------------------------------------------------------------------------- the two sides of a basis
+_SIDES_ROUTES = ["QPDBasis.from_instruction", "cut_gates", "partition_problem"]
+
+
+def _sides_basis(payload, route):
+    """-> (basis, other): a freshly obtained basis of the gate of the payload; for partition_problem `other` = {side: (the subcircuit holding
+    the qubit-`side` half of the cut, index of that half)}"""
+    from qiskit.circuit import QuantumCircuit
+    from qiskit.quantum_info import PauliList
+    import qiskit_addon_cutting as P
+    from qiskit_addon_cutting.qpd import QPDBasis, BaseQPDGate
+    op = canon.mk_op(payload["gate"], payload["params"])
+    if route == "QPDBasis.from_instruction":
+        return QPDBasis.from_instruction(op), None
+    qc = QuantumCircuit(2)
+    qc.h(0)
+    qc.append(op, [0, 1])
+    qc.sx(1)
+    if route == "cut_gates":
+        return P.cut_gates(qc, [1])[0].data[1].operation.basis, None
+    pp = P.partition_problem(qc, "AB", PauliList(["ZZ"]))
+    other = {}
+    for sub in pp.subcircuits.values():
+        for i, x in enumerate(sub.data):
+            if isinstance(x.operation, BaseQPDGate):
+                other[x.operation.qubit_id] = (sub, i)
+    return pp.bases[0], other
+
+
+def _sides_oracle(payload):
+    from qiskit.circuit.library import TGate
+    from qiskit_addon_cutting.qpd import decompose_qpd_instructions
+    gate = payload["gate"]
+    for route in _SIDES_ROUTES:
+        for side in (0, 1):
+            try:
+                basis, other = _sides_basis(payload, route)
+            except ValueError:
+                continue  # this entry point refuses the gate
+            first = audit.fp_basis(basis)
+
+            def read():
+                r = [[audit.fp_op(o) for o in m[1 - side]] for m in basis.maps]
+                if other is not None and (1 - side) in other:
+                    sub, i = other[1 - side]
+                    r.append([audit.fp(decompose_qpd_instructions(sub, [[i]], [m])) for m in range(len(basis.maps))])
+                return r
+            before, done = read(), set()
+            for m in basis.maps:
+                if id(m[side]) not in done:
+                    done.add(id(m[side]))
+                    m[side].insert(0, TGate())
+            after = read()
+            nm = len(basis.maps)
+            bad = [k for k in range(nm) if before[k] != after[k]]
+            if bad:
+                return (f"function={route} class=SIDES: prepending a t gate to every distinct qubit-{side} operation list of basis.maps of the basis returned for "
+                        f"{gate}{payload['params']} also changed the qubit-{1 - side} lists of maps {bad}: "
+                        f"{[[eval(o)[0] for o in before[k]] for k in bad]} -> {[[eval(o)[0] for o in after[k]] for k in bad]}")
+            if before != after:
+                bad = [k for k in range(nm) if before[nm][k] != after[nm][k]]
+                return (f"function={route} class=SIDES: after prepending a t gate to every distinct qubit-{side} operation list of the basis of the cut {gate}{payload['params']} "
+                        f"(through the qubit-{side} subcircuit), decompose_qpd_instructions on the OTHER returned subcircuit gives a different circuit for map(s) {bad}")
+            again = audit.fp_basis(_sides_basis(payload, route)[0])
+            if again != first:
+                return (f"function={route} class=SIDES: after editing the qubit-{side} lists of a returned basis for {gate}{payload['params']}, "
+                        f"the basis returned by a later call differs from the one returned the first time")
+    return None
+
+
 def model_line(kind, payload):
-    if kind == "history":
+    if kind in ("history", "separate", "sides"):
         # a sequence of calls is outside the ownership model: nothing to compare, the oracle decides
         return {"op": "c16.predict", "fn": "cut_wires", "preplaced": False, "payload": False, "map_ops": False, "param_ops": False}
     try:
@@ -550,6 +663,8 @@ def run_real(kind, payload):
     if kind == "history":
         objs = _hist_run(payload)
         return {"ok": {"history": [len(c.data) for c in objs]}}
+    if kind == "sides":
+        return {"ok": {"sides": [len(_sides_basis(payload, r)[0].maps) for r in _SIDES_ROUTES[:1]]}}
     ob = _observe(payload)
     return {"ok": {k: ob[k] for k in ("mutated", "classes", "dup", "cross", "repeatable", "alias")}}
 
@@ -561,8 +676,8 @@ def model_canon(kind, payload, out):
 
 
 def compare(kind, payload, real, model):
-    if kind == "history":
-        return None
+    if kind in ("history", "separate", "sides"):
+        return None  # no skeleton in the ownership model for these: the oracle decides
     if "error" in real:
         return None  # the request itself was refused (e.g. unsupported spanning gate): nothing to audit
     r, m = real["ok"], model["ok"]
@@ -588,6 +703,8 @@ def compare(kind, payload, real, model):
 def describe(kind, payload):
     if kind == "history":
         return {"fn": "history", "history": "+".join(payload["chain"]) + "/" + payload["edit"]}
+    if kind == "sides":
+        return {"fn": "qpd_basis", "sides": payload["gate"]}
     return {"fn": payload["fn"]}
 
 
@@ -738,7 +855,31 @@ def _which_dist(payload):
     return ""
 
 
+def _which_barriers(payload):
+    """for a direct separate_circuit call: how the argument circuit reads before and after"""
+    if payload.get("fn") != "separate_circuit":
+        return ""
+    try:
+        f, args, _ = _setup(payload)
+        def read(c):
+            return len(c.data), [(len(i.qubits), i.operation.label) for i in c.data if i.operation.name == "barrier"]
+        b = read(args[0])
+        f(*args)
+        a = read(args[0])
+        if a != b:
+            return (f": the argument circuit had {b[0]} instructions with barriers (width, label) {b[1]} before separate_circuit(circuit, {args[1]}) "
+                    f"and has {a[0]} instructions with barriers {a[1][:6]} afterwards")
+    except Exception:
+        pass
+    return ""
+
+
 def oracle(kind, payload):
+    if kind == "sides":
+        try:
+            return _sides_oracle(payload)
+        except Exception as ex:
+            return f"function=QPDBasis.from_instruction basis-sides audit crashed: {type(ex).__name__}: {ex}"
     if kind == "history":
         try:
             return _history_oracle(payload)
@@ -755,7 +896,7 @@ def oracle(kind, payload):
     fn = payload["fn"]
     if ob["mutated"]:
         return (f"function={fn} class=MUTATION: the call modified its arguments" + (f" (argument(s) {ob['changed']} differ from their snapshot)" if ob.get("changed") else "")
-                + _which_dist(payload))
+                + _which_dist(payload) + _which_barriers(payload))
     if ob["dup"]:
         return f"function={fn} class=DUP: the same circuit object is returned twice (editing one returned circuit edits another)"
     if ob["alias"]:
